@@ -150,7 +150,13 @@ def newton_raphson_solve_s(P1, S, FFp, s1=0.0,
         # while allowing those which have not yet converged to progress,
         # over "time," the iterations of Newton-Raphson will speed up, in terms
         # of wall clock time.
-        rays_which_converged = (delta < eps)
+        # the rounding noise in Fj (and so in the Newton step) grows with the size of
+        # the coordinates: an absolute tolerance of 100 eps is below one ulp of s for
+        # points ~100 units from the vertex, where the iteration then oscillates by an
+        # ulp forever and the ray would be declared lost.  Make the tolerance relative
+        # to the size of the point for points farther than one unit from the vertex
+        scale = np.maximum(1, abs(Pj).max(axis=1))
+        rays_which_converged = (delta < eps * scale)
         sj[mask] = sjp1
         insert_mask = mask[rays_which_converged]
         if insert_mask.size != 0:
